@@ -183,6 +183,35 @@ Theorem C06_repeated_reference_example :
 Proof. exact duplicate_reference_example. Qed.
 Print Assumptions C06_repeated_reference_example.
 
+(* ... however each copy addresses its tables: by alias, by a key written bare, or as schema.name when no table answers to the bare
+   name (PyDBMLParser.locate_table) — in any combination, on either side.  [names_bp allk bp sch n]: the address (sch, n) names the
+   table of blueprint bp *)
+From PyDBML Require Import BuildSpell.
+Theorem C06_document_with_same_reference_in_any_spelling_never_builds :
+  forall s allow sq dq h0 h1 dd l1 dd1 l2 dd2 l3,
+    WW h0 -> (forall t tb, h_table h0 t = Some tb -> NoDup (names_of tb)) -> Forall good_table_bp (ps_tables s) ->
+    ps_refs s = l1 ++ PVBlue 4 dd1 :: l2 ++ PVBlue 4 dd2 :: l3 -> sameref (flat_map bp_keys (ps_tables s)) (ps_tables s) dd1 dd2 ->
+    build_database s allow sq dq h0 <> (h1, Ok dd).
+Proof. exact build_database_rejects_same_references. Qed.
+Print Assumptions C06_document_with_same_reference_in_any_spelling_never_builds.
+
+(* a table group listing one table twice, under whatever two spellings *)
+Theorem C06_document_with_group_listing_a_table_twice_never_builds :
+  forall s allow sq dq h0 h1 dd l1 gb l2,
+    WW h0 -> (forall t tb, h_table h0 t = Some tb -> NoDup (names_of tb)) -> Forall good_table_bp (ps_tables s) ->
+    ps_groups s = l1 ++ gb :: l2 -> group_repeats_table (flat_map bp_keys (ps_tables s)) (ps_tables s) gb ->
+    build_database s allow sq dq h0 <> (h1, Ok dd).
+Proof. exact build_database_rejects_group_listing_a_table_twice. Qed.
+Print Assumptions C06_document_with_group_listing_a_table_twice_never_builds.
+
+Theorem C06_spelling_examples :
+  (sameref (flat_map bp_keys (ps_tables ex_doc_spell)) (ps_tables ex_doc_spell) (ex_ref_dd "b" "a_id" "a" "id") (ex_ref_inline "b" "a_id" "al" "id")
+   /\ snd (build_database ex_doc_spell_refs_only false 0 1 []) = Raise EDatabaseValidation)
+  /\ (group_repeats_table (flat_map bp_keys (ps_tables ex_doc_spell)) (ps_tables ex_doc_spell) (ex_group "g" ["b"; "a"; "al"])
+      /\ snd (build_database (mkPState (ps_tables ex_doc_spell) [] [] (ps_groups ex_doc_spell) None []) false 0 1 []) = Raise EValidation).
+Proof. exact (conj same_reference_other_spelling_example group_table_twice_example). Qed.
+Print Assumptions C06_spelling_examples.
+
 (* each of the document-level theorems above lifts to source texts: whatever blueprints the grammar produced for the text *)
 Theorem C06_source_never_parses_when_its_blueprints_never_build :
   forall source allow sq dq h0 st,
